@@ -1,5 +1,369 @@
 package main
 
-import "fmt"
+import (
+	"fmt"
+	"go/ast"
+	"go/parser"
+	goprinter "go/printer"
+	"go/token"
+	"os"
+	"path/filepath"
+	"sort"
+	"strings"
+)
 
-func writeFacts(repo, out string) error { return fmt.Errorf("not yet") }
+// writeFacts extracts, from /repo's current sources (go/ast), which fields of every struct on the
+// clone path are set from a cloner call / fresh container, and which payload types objectClone
+// handles, and writes them as a Lean data file (theorems over it are closed by `decide`).
+
+type structInfo struct {
+	fields []fieldInfo
+}
+type fieldInfo struct {
+	name, typ string
+	kind      string // ptr | container | iface | struct:<name> | plain
+}
+
+var mutablePointees = map[string]bool{"object": true, "runtime": true, "dclStash": true, "fnStash": true, "objectStash": true, "scope": true, "Otto": true}
+
+func exprString(fset *token.FileSet, e ast.Node) string {
+	var b strings.Builder
+	goprinter.Fprint(&b, fset, e)
+	return strings.Join(strings.Fields(b.String()), " ")
+}
+
+func typeKind(t ast.Expr) string {
+	switch x := t.(type) {
+	case *ast.StarExpr:
+		if id, ok := x.X.(*ast.Ident); ok && mutablePointees[id.Name] {
+			return "ptr"
+		}
+		return "plain" // *objectClass, *nodeFunctionLiteral, *regexp.Regexp, *file.File: never written through after creation
+	case *ast.Ident:
+		if x.Name == "stasher" {
+			return "ptr"
+		}
+		return "named:" + x.Name
+	case *ast.MapType, *ast.ArrayType:
+		return "container"
+	case *ast.InterfaceType:
+		return "iface"
+	}
+	return "plain"
+}
+
+func writeFacts(repo, out string) error {
+	fset := token.NewFileSet()
+	files, _ := filepath.Glob(filepath.Join(repo, "*.go"))
+	sort.Strings(files)
+	structs := map[string]*structInfo{}
+	var parsed []*ast.File
+	for _, fn := range files {
+		if strings.HasSuffix(fn, "_test.go") || strings.HasPrefix(filepath.Base(fn), "verif_") {
+			continue
+		}
+		f, err := parser.ParseFile(fset, fn, nil, 0)
+		if err != nil {
+			return err
+		}
+		parsed = append(parsed, f)
+		ast.Inspect(f, func(n ast.Node) bool {
+			ts, ok := n.(*ast.TypeSpec)
+			if !ok {
+				return true
+			}
+			st, ok := ts.Type.(*ast.StructType)
+			if !ok {
+				return true
+			}
+			si := &structInfo{}
+			for _, fl := range st.Fields.List {
+				names := fl.Names
+				if len(names) == 0 { // embedded
+					names = []*ast.Ident{{Name: exprString(fset, fl.Type)}}
+				}
+				for _, nm := range names {
+					si.fields = append(si.fields, fieldInfo{name: nm.Name, typ: exprString(fset, fl.Type), kind: typeKind(fl.Type)})
+				}
+			}
+			structs[ts.Name.Name] = si
+			return true
+		})
+	}
+	// does a struct bear a mutable reference (transitively through by-value struct fields)?
+	var bears func(name string, seen map[string]bool) bool
+	bears = func(name string, seen map[string]bool) bool {
+		si, ok := structs[name]
+		if !ok || seen[name] {
+			return false
+		}
+		seen[name] = true
+		for _, f := range si.fields {
+			switch {
+			case f.kind == "ptr" || f.kind == "container" || f.kind == "iface":
+				return true
+			case strings.HasPrefix(f.kind, "named:"):
+				if bears(strings.TrimPrefix(f.kind, "named:"), seen) {
+					return true
+				}
+			}
+		}
+		return false
+	}
+	mutableField := func(f fieldInfo) bool {
+		if f.kind == "ptr" || f.kind == "container" || f.kind == "iface" {
+			return true
+		}
+		if strings.HasPrefix(f.kind, "named:") {
+			return bears(strings.TrimPrefix(f.kind, "named:"), map[string]bool{})
+		}
+		return false
+	}
+
+	// ---- clone sites
+	funcs := map[string]*ast.FuncDecl{}
+	for _, f := range parsed {
+		for _, d := range f.Decls {
+			fd, ok := d.(*ast.FuncDecl)
+			if !ok {
+				continue
+			}
+			name := fd.Name.Name
+			if fd.Recv != nil && len(fd.Recv.List) == 1 {
+				name = strings.TrimPrefix(exprString(fset, fd.Recv.List[0].Type), "*") + "." + name
+			}
+			funcs[name] = fd
+		}
+	}
+	clonerVars := map[string]bool{"c": true, "clone": true, "cloner": true}
+	// locals that hold fresh things: assigned from make(...), a composite literal, a cloner call or x.clone(c)
+	var isFresh func(e ast.Expr, fresh map[string]bool) bool
+	isFresh = func(e ast.Expr, fresh map[string]bool) bool {
+		found := false
+		ast.Inspect(e, func(n ast.Node) bool {
+			switch x := n.(type) {
+			case *ast.CallExpr:
+				if id, ok := x.Fun.(*ast.Ident); ok && id.Name == "make" {
+					found = true
+				}
+				if sel, ok := x.Fun.(*ast.SelectorExpr); ok {
+					if id, ok := sel.X.(*ast.Ident); ok && clonerVars[id.Name] {
+						found = true
+					}
+					if sel.Sel.Name == "clone" || sel.Sel.Name == "newObjectStash" {
+						found = true
+					}
+				}
+			case *ast.SelectorExpr:
+				if id, ok := x.X.(*ast.Ident); ok && clonerVars[id.Name] && x.Sel.Name == "runtime" {
+					found = true
+				}
+			case *ast.Ident:
+				if fresh[x.Name] {
+					found = true
+				}
+			case *ast.CompositeLit:
+				if len(x.Elts) == 0 {
+					found = true
+				}
+			}
+			return !found
+		})
+		return found
+	}
+	type fieldFact struct {
+		site, strct, field, typ string
+		mutable                 bool
+		how                     string
+	}
+	var facts []fieldFact
+	type payloadCase struct {
+		typ     string
+		mutable bool
+		fresh   bool
+	}
+	var cases []payloadCase
+
+	site := func(fname, strct, outVar string) {
+		fd, ok := funcs[fname]
+		if !ok {
+			facts = append(facts, fieldFact{fname, strct, "<function missing>", "", true, "unset"})
+			return
+		}
+		si := structs[strct]
+		how := map[string]string{}
+		fresh := map[string]bool{}
+		ast.Inspect(fd.Body, func(n ast.Node) bool {
+			switch x := n.(type) {
+			case *ast.AssignStmt:
+				for i, lhs := range x.Lhs {
+					if i >= len(x.Rhs) {
+						break
+					}
+					rhs := x.Rhs[i]
+					if id, ok := lhs.(*ast.Ident); ok && isFresh(rhs, fresh) {
+						fresh[id.Name] = true
+					}
+					if sel, ok := lhs.(*ast.SelectorExpr); ok {
+						if id, ok := sel.X.(*ast.Ident); ok && id.Name == outVar && outVar != "" {
+							if strct == "object" && sel.Sel.Name == "value" {
+								continue // handled as payload cases
+							}
+							if isFresh(rhs, fresh) {
+								how[sel.Sel.Name] = "fresh"
+							} else if how[sel.Sel.Name] == "" {
+								how[sel.Sel.Name] = "shared"
+							}
+						}
+					}
+				}
+			case *ast.CompositeLit:
+				if id, ok := x.Type.(*ast.Ident); ok && id.Name == strct && len(x.Elts) > 0 {
+					for i, el := range x.Elts {
+						var fname string
+						var val ast.Expr
+						if kv, ok := el.(*ast.KeyValueExpr); ok {
+							fname = exprString(fset, kv.Key)
+							val = kv.Value
+						} else if i < len(si.fields) {
+							fname = si.fields[i].name
+							val = el
+						}
+						if isFresh(val, fresh) {
+							how[fname] = "fresh"
+						} else {
+							how[fname] = "shared"
+						}
+					}
+				}
+			}
+			return true
+		})
+		for _, f := range si.fields {
+			h := how[f.name]
+			if h == "" {
+				h = "unset"
+			}
+			facts = append(facts, fieldFact{fname, strct, f.name, f.typ, mutableField(f), h})
+		}
+	}
+	site("objectClone", "object", "out")
+	site("objectClone", "bindFunctionObject", "")
+	site("objectClone", "nodeFunctionObject", "")
+	site("argumentsObject.clone", "argumentsObject", "")
+	site("objectStash.clone", "objectStash", "")
+	site("dclStash.clone", "dclStash", "")
+	site("fnStash.clone", "fnStash", "")
+	site("cloner.property", "property", "out")
+	site("cloner.dclProperty", "dclProperty", "out")
+	site("cloner.value", "Value", "out")
+	site("runtime.clone", "runtime", "out")
+
+	// payload cases of objectClone: switch value := in.value.(type)
+	if fd, ok := funcs["objectClone"]; ok {
+		ast.Inspect(fd.Body, func(n ast.Node) bool {
+			ts, ok := n.(*ast.TypeSwitchStmt)
+			if !ok {
+				return true
+			}
+			for _, cc := range ts.Body.List {
+				c := cc.(*ast.CaseClause)
+				for _, t := range c.List {
+					tn := exprString(fset, t)
+					fr := false
+					for _, st := range c.Body {
+						if as, ok := st.(*ast.AssignStmt); ok && len(as.Rhs) == 1 && isFresh(as.Rhs[0], map[string]bool{}) {
+							fr = true
+						}
+					}
+					cases = append(cases, payloadCase{tn, bears(tn, map[string]bool{}), fr})
+				}
+			}
+			return false
+		})
+	}
+	// struct types asserted on some `.value` anywhere in the package (candidate object payloads)
+	payloadTypes := map[string]bool{}
+	for _, f := range parsed {
+		ast.Inspect(f, func(n ast.Node) bool {
+			var target ast.Expr
+			var of ast.Expr
+			switch x := n.(type) {
+			case *ast.TypeAssertExpr:
+				target, of = x.Type, x.X
+			case *ast.TypeSwitchStmt:
+				// switch v := X.(type) { case T: }
+				var ta *ast.TypeAssertExpr
+				switch a := x.Assign.(type) {
+				case *ast.AssignStmt:
+					ta, _ = a.Rhs[0].(*ast.TypeAssertExpr)
+				case *ast.ExprStmt:
+					ta, _ = a.X.(*ast.TypeAssertExpr)
+				}
+				if ta != nil {
+					if sel, ok := ta.X.(*ast.SelectorExpr); ok && sel.Sel.Name == "value" {
+						for _, cc := range x.Body.List {
+							for _, t := range cc.(*ast.CaseClause).List {
+								if id, ok := t.(*ast.Ident); ok {
+									if _, isStruct := structs[id.Name]; isStruct {
+										payloadTypes[id.Name] = true
+									}
+								}
+							}
+						}
+					}
+				}
+				return true
+			}
+			if target == nil {
+				return true
+			}
+			if sel, ok := of.(*ast.SelectorExpr); ok && sel.Sel.Name == "value" {
+				if id, ok := target.(*ast.Ident); ok {
+					if _, isStruct := structs[id.Name]; isStruct {
+						payloadTypes[id.Name] = true
+					}
+				}
+			}
+			return true
+		})
+	}
+
+	var b strings.Builder
+	b.WriteString("/- REGENERATED by `ottoh-C17 --facts` from /repo's current sources on every run. Do not edit, do not commit. -/\n")
+	b.WriteString("namespace OttoVerif.C17.Gen\n\n")
+	b.WriteString("/-- (clone site, struct, field, Go type, field can hold a mutable reference, how the site sets it) -/\n")
+	b.WriteString("def cloneFields : List (String × String × String × String × Bool × String) := [\n")
+	for i, f := range facts {
+		sep := ","
+		if i == len(facts)-1 {
+			sep = ""
+		}
+		fmt.Fprintf(&b, "  (%q, %q, %q, %q, %t, %q)%s\n", f.site, f.strct, f.field, f.typ, f.mutable, f.how, sep)
+	}
+	b.WriteString("]\n\n/-- objectClone's payload switch: (case type, type holds a mutable reference, the case builds a fresh payload) -/\n")
+	b.WriteString("def payloadCases : List (String × Bool × Bool) := [\n")
+	for i, c := range cases {
+		sep := ","
+		if i == len(cases)-1 {
+			sep = ""
+		}
+		fmt.Fprintf(&b, "  (%q, %t, %t)%s\n", c.typ, c.mutable, c.fresh, sep)
+	}
+	b.WriteString("]\n\n/-- struct types asserted on a `.value` somewhere in the package: (type, holds a mutable reference) -/\n")
+	b.WriteString("def payloadTypes : List (String × Bool) := [\n")
+	var pts []string
+	for k := range payloadTypes {
+		pts = append(pts, k)
+	}
+	sort.Strings(pts)
+	for i, k := range pts {
+		sep := ","
+		if i == len(pts)-1 {
+			sep = ""
+		}
+		fmt.Fprintf(&b, "  (%q, %t)%s\n", k, bears(k, map[string]bool{}), sep)
+	}
+	b.WriteString("]\n\nend OttoVerif.C17.Gen\n")
+	return os.WriteFile(out, []byte(b.String()), 0o644)
+}
